@@ -150,7 +150,7 @@ def run(R, env):
             for op in storage_ops_deep(prog, ih, env.depth):
                 if op["kind"] == "w" and ns_of(prog, op["args"][0]) == "config" and op["op"] == "save":
                     n += 1
-                    val = op["args"][2]
+                    val = shared.written_agg(prog, op)
                     den = agg_field(val, "liquid_stake_token_denom") if val[0] == "agg" else None
                     fargs = []
                     if den is not None:
